@@ -142,7 +142,7 @@ func drawWidth(r *Run, o uiOpts) int {
 	t := r.W
 	if o.sizes && t.Chance(1, 6) {
 		r.S.Probe("ui_narrow_terminal")
-		return 1 + t.Draw(11)
+		return t.Draw(12) // 0 columns included: what a terminal reports while its window is being set up or torn down
 	}
 	return 12 + t.Draw(109)
 }
@@ -326,6 +326,21 @@ func scenUI(r *Run, o uiOpts) {
 	u.settleSizes()
 	for i := 0; i < nActions; i++ {
 		act := g.next()
+		if o.sizes && t.Chance(1, 12) {
+			// a command line exactly as wide as the terminal, with a line feed (ctrl+j) typed into it
+			u.mu.Lock()
+			width := u.w
+			u.mu.Unlock()
+			if width >= 4 && width <= 160 {
+				b := []byte{':'}
+				for k := 0; k < width-1; k++ {
+					b = append(b, 'a'+byte(k%26))
+				}
+				b[1+t.Draw(width-1)] = '\n'
+				act = append(b, 27)
+				r.S.Probe("ui_status_text_as_wide_as_the_terminal_with_line_feed")
+			}
+		}
 		typed = append(typed, fmt.Sprintf("%q", act))
 		for _, c := range act {
 			u.Key(c)
